@@ -49,6 +49,10 @@ def renderOptPath : Option Path → String
   | none => "err"
 
 def step (s : St) (args : List String) : St × String × String :=
+  -- `updnotiA`: the notification is marked atomic; `UpdateNotification` offers it by its updates all the same
+  let args := match args with
+    | "updnotiA" :: rest => "updnoti" :: rest
+    | _ => args
   match args with
   | ["new"] => ({}, "ok", "ok")
   | ["add", c, q] =>
